@@ -74,6 +74,9 @@ def lifecycle_history(rng, n, insts, tc, with_find=True, with_sub=False, ann0=No
             else:
                 sched.append({"t": t, "j": j, "op": "ann_stop"})
                 started = False
+                if rng.random() < 0.5:      # ... and offered again at once: the instance is back in its initial wait phase
+                    sched.append({"t": t, "j": j, "op": "ann_start"})
+                    started = True
         elif r < 0.32:
             if started:
                 sched.append({"t": t, "j": j, "op": "ann_stop"})
@@ -134,6 +137,36 @@ def _fresh_sub(rng):
     return {"ty": "sub", "svc": svc, "eg": rng.choice([1, 1, 2, 3]), "ctr": rng.choice([0, 0, 1, 7, 15]),
             "eps": sorted(eps), "ttl": rng.choice([0, 1, 2, 3, 3, 16777215]), "opts": rng.choice([[], [], ["x1"]]),
             "acc": rng.random() < 0.7}
+
+
+def sub_lifecycle_family():
+    """one subscription key, one subscriber: rejected then accepted; ended by a stop of the service / the announcer / a lost
+    connection and subscribed again after the restart; refreshed by a Subscribe the listener would reject as a new one -- over
+    every TTL pair and both collection settings.  (Timers of the earlier attempt must not touch the later subscription.)"""
+    out = []
+    sub = {"ty": "sub", "svc": "s1", "eg": 1, "ctr": 0, "eps": ["e1"], "opts": []}
+
+    def rx(t, j, sid, ttl, acc):
+        return {"t": t, "j": j, "op": "rx", "src": "a1", "mc": False, "sid": sid, "rb": True, "uc": True, "es": [dict(sub, ttl=ttl, acc=acc)]}
+    for v in ("A", "B0"):
+        tc = TIMINGS[v]
+        for a in (2, 3):
+            for b in (5, 16777215):
+                scen = {"nak_then_ack": [rx(2, 0, 1, a, False), rx(3, 0, 2, b, True), rx(3 + a, 0, 3, b, False)]}
+                for kind, stop, start, dt in (("ann", {"op": "ann_stop"}, {"op": "ann_start"}, 0),
+                                              ("inst", {"op": "stop_announce", "inst": "I1"}, {"op": "announce", "inst": "I1"}, 0),
+                                              ("connlost", {"op": "connlost"}, {"op": "ann_start"}, 1)):
+                    scen["sub_stop_%s_sub" % kind] = [rx(2, 0, 1, a, True), dict(stop, t=3, j=0), dict(start, t=3 + dt, j=1),
+                                                      rx(4 + dt, 0, 2, b, True), rx(3 + a, 2, 3, b, False)]
+                for name, steps in scen.items():
+                    sched = [{"t": 0, "j": 0, "op": "ann_start"}] + steps
+                    rand = [0] * 6
+                    ev, _ = annenv.run_schedule(sched, tc, ["I1"], ann0=["I1"], rand=list(rand), t_extra=14)
+                    cfg = annenv.mon_cfg(tc, ["I1"], ["I1"])
+                    cfg["dsts"] = ["mc", "a1", "a2", "a3", "a4", "a5"]
+                    out.append({"cfg": cfg, "ev": monpass.add_adv(ev), "sched": sched, "variant": v, "ann0": ["I1"], "rand": rand,
+                                "insts": ["I1"], "t_extra": 14, "diag": {"variant": v, "family": name}})
+    return out
 
 
 def run(seed, count, length, insts, variants, monitor_cfg_extra=None, **kw):
